@@ -411,11 +411,17 @@ def r6_3(ctx):
 
 # ---- R6.4 --------------------------------------------------------------
 
-def _eval_bits(e, env) -> int:
-    """Evaluate an & | ~ ^ expression over 1-bit leaves given by env: norm(leaf) -> 0/1."""
+NBITS_DEFAULT = 13
+
+
+def _eval_bits(e, env, nbits: int = NBITS_DEFAULT, consts=None) -> int:
+    """Evaluate an & | ~ ^ expression over bit-vectors of width nbits. env: norm(leaf) -> vector
+    (operand fields are all-ones or zero per truth-table row); consts: norm(leaf) -> int constant."""
+    ALL = (1 << nbits) - 1
+    consts = consts or {}
     if isinstance(e, ast.BinOp):
-        a = _eval_bits(e.left, env)
-        b = _eval_bits(e.right, env)
+        a = _eval_bits(e.left, env, nbits, consts)
+        b = _eval_bits(e.right, env, nbits, consts)
         if isinstance(e.op, ast.BitAnd):
             return a & b
         if isinstance(e.op, ast.BitOr):
@@ -424,11 +430,16 @@ def _eval_bits(e, env) -> int:
             return a ^ b
         raise AnalysisError(f"operator not in the bitwise fragment: {norm(e)}")
     if isinstance(e, ast.UnaryOp) and isinstance(e.op, ast.Invert):
-        return 1 - _eval_bits(e.operand, env)
+        return ~_eval_bits(e.operand, env, nbits, consts) & ALL
     k = norm(e)
     if k in env:
-        return env[k]
-    raise AnalysisError(f"leaf not an operand field: {k}")
+        return ALL if env[k] else 0
+    if k in consts:
+        return consts[k] & ALL
+    c = const_int(e)
+    if c is not None:
+        return c & ALL
+    raise AnalysisError(f"leaf not an operand field or constant: {k}")
 
 
 def _eval_pick(e, env):
@@ -475,10 +486,29 @@ def r6_4(ctx):
     if A is None or S is None:
         raise AnchorVanished("Style.__add__ does not store _attributes/_set_attributes")
     names = {"a1": f"self._attributes", "s1": "self._set_attributes", "a2": f"{right}._attributes", "s2": f"{right}._set_attributes"}
+    bits = _bit_attrs(ctx)
+    nbits = max(bits.values()) + 1
+    ALL = (1 << nbits) - 1
+    # integer constants of the class (e.g. a full-attribute mask) may appear as leaves
+    consts = {}
+    for st_ in _style(ctx).node.body:
+        if isinstance(st_, ast.Assign) and len(st_.targets) == 1 and isinstance(st_.targets[0], ast.Name):
+            cv = const_int(st_.value)
+            if cv is not None:
+                for pre in ("self.", f"{right}.", "Style.", "cls."):
+                    consts[pre + st_.targets[0].id] = cv
 
     def ev(a1, s1, a2, s2):
         env = {names["a1"]: a1, names["s1"]: s1, names["a2"]: a2, names["s2"]: s2}
-        return _eval_bits(A, env), _eval_bits(S, env)
+        return _eval_bits(A, env, nbits, consts), _eval_bits(S, env, nbits, consts)
+
+    def vec(b):
+        return ALL if b else 0
+
+    def badbits(got, want):
+        diff = (got ^ want) & ALL
+        names_ = {v: k for k, v in bits.items()}
+        return [names_.get(i, str(i)) for i in range(nbits) if diff >> i & 1]
 
     where = f"{add.module.relpath}:{rt.store_stmts['_attributes'].lineno}"
     bad = []
@@ -488,28 +518,57 @@ def r6_4(ctx):
             continue  # invariant: value bits are a subset of set bits (established by __init__, checked below)
         rows += 1
         a, s = ev(a1, s1, a2, s2)
-        if s != (s1 | s2):
-            bad.append(f"set'({a1}{s1}{a2}{s2})={s} != s1|s2")
-        want = a2 if s2 else a1
+        if s != vec(s1 | s2):
+            bad.append(f"set'(a1={a1},s1={s1},a2={a2},s2={s2}) wrong for attributes {badbits(s, vec(s1 | s2))}")
+        want = vec(a2 if s2 else a1)
         if a != want:
-            bad.append(f"attr'(a1={a1},s1={s1},a2={a2},s2={s2})={a}, right-bias wants {want}")
-        if a > s:
-            bad.append(f"invariant attr⊆set broken at a1={a1},s1={s1},a2={a2},s2={s2}")
+            bad.append(f"attr'(a1={a1},s1={s1},a2={a2},s2={s2}) is not the right-biased value for attributes {badbits(a, want)}")
+        if a & ~s & ALL:
+            bad.append(f"invariant attr⊆set broken at a1={a1},s1={s1},a2={a2},s2={s2} for {badbits(a & ~s, 0)}")
     ctx.check(not bad, add.fq, f"_attributes = {short(A)} ; _set_attributes = {short(S)}", where,
-              f"right-bias + set-union + invariant hold on all {rows} per-bit rows",
+              f"right-bias + set-union + invariant hold on all {rows} rows x {nbits} attribute bits",
               "bitmask combination is wrong: " + "; ".join(bad[:4]))
-    # associativity over all 6-leaf rows
+    # associativity over all 6-leaf rows (operand vectors are 0 / all-ones, so one evaluation covers every bit position)
     bad = []
     rows = 0
+
+    def ev2(x, y):
+        env = {names["a1"]: None}
+        return None
+
+    def evv(av1, sv1, av2, sv2):
+        # evaluate on explicit vectors (results of a previous combination)
+        class _E(dict):
+            pass
+        def run(e):
+            if isinstance(e, ast.BinOp):
+                l, r_ = run(e.left), run(e.right)
+                return l & r_ if isinstance(e.op, ast.BitAnd) else (l | r_ if isinstance(e.op, ast.BitOr) else l ^ r_)
+            if isinstance(e, ast.UnaryOp):
+                return ~run(e.operand) & ALL
+            k = norm(e)
+            m_ = {names["a1"]: av1, names["s1"]: sv1, names["a2"]: av2, names["s2"]: sv2}
+            if k in m_:
+                return m_[k]
+            if k in consts:
+                return consts[k] & ALL
+            c_ = const_int(e)
+            if c_ is not None:
+                return c_ & ALL
+            raise AnalysisError(f"leaf not an operand field or constant: {k}")
+        return run(A), run(S)
+
     for a1, s1, a2, s2, a3, s3 in itertools.product((0, 1), repeat=6):
         if a1 > s1 or a2 > s2 or a3 > s3:
             continue
         rows += 1
-        l = ev(*ev(a1, s1, a2, s2), a3, s3)
-        r = ev(a1, s1, *ev(a2, s2, a3, s3))
+        xy = evv(vec(a1), vec(s1), vec(a2), vec(s2))
+        l = evv(xy[0], xy[1], vec(a3), vec(s3))
+        yz = evv(vec(a2), vec(s2), vec(a3), vec(s3))
+        r = evv(vec(a1), vec(s1), yz[0], yz[1])
         if l != r:
-            bad.append(f"(x+y)+z != x+(y+z) at {(a1, s1, a2, s2, a3, s3)}")
-    ctx.check(not bad, add.fq, "associativity of bitmask forms", where, f"associative on all {rows} per-bit rows",
+            bad.append(f"(x+y)+z != x+(y+z) at {(a1, s1, a2, s2, a3, s3)} for attributes {badbits(l[0] ^ r[0] | l[1] ^ r[1], 0)}")
+    ctx.check(not bad, add.fq, "associativity of bitmask forms", where, f"associative on all {rows} rows x {nbits} attribute bits",
               "bitmask combination is not associative: " + "; ".join(bad[:3]))
     # invariant established by __init__: _attributes is masked by / zero without _set_attributes
     init = _method(ctx, "__init__")
